@@ -456,7 +456,90 @@ impl Space for Accessors {
     }
 }
 
+/// Decoding depends on class and byte order only: for EVERY e_machine and e_type value (65536
+/// each), every osabi / abiversion byte and boundary e_flags / e_entry values, the whole-file
+/// observation (all records except the file header itself) must equal the baseline's.
+struct Independence {
+    sk: Vec<crate::skeleton::Skeleton>,
+}
+const IND_FIELDS: [(&str, u64); 6] = [("ehdr.e_machine", 65536), ("ehdr.e_type", 65536), ("ehdr.ei_osabi", 256), ("ehdr.ei_abiversion", 256), ("ehdr.e_flags", 40), ("ehdr.e_entry", 40)];
+impl Independence {
+    fn blocks() -> Vec<(usize, u64)> {
+        // (field, block of 256 values)
+        let mut v = Vec::new();
+        for (fi, (_, n)) in IND_FIELDS.iter().enumerate() {
+            let mut a = 0;
+            while a < *n {
+                v.push((fi, a));
+                a += 256;
+            }
+        }
+        v
+    }
+}
+impl Space for Independence {
+    fn name(&self) -> String {
+        "independence of everything but class/order: every e_machine (65536) and e_type (65536) value, every EI_OSABI / EI_ABIVERSION byte, boundary e_flags / e_entry values on the tiny-full skeletons (4 encodings): all API results except the file header itself must equal the baseline's".into()
+    }
+    fn size(&self) -> u64 {
+        (Self::blocks().len() * self.sk.len()) as u64
+    }
+    fn describe(&self, idx: u64) -> Value {
+        let b = Self::blocks();
+        let (fi, a) = b[idx as usize % b.len()];
+        json!({"skeleton": self.sk[idx as usize / b.len()].name, "field": IND_FIELDS[fi].0, "values_from": a})
+    }
+    fn run(&self, idx: u64, out: &mut Outcome) {
+        use crate::driver::*;
+        let b = Self::blocks();
+        let (fi, a) = b[idx as usize % b.len()];
+        let sk = &self.sk[idx as usize / b.len()];
+        let site = sk.sites.iter().find(|s| s.role == IND_FIELDS[fi].0).expect("site").clone();
+        let run = |bytes: &[u8]| -> Option<Vec<Rec>> {
+            let mut s = RecordSink::new();
+            match subject(|| observe::<AnyEndian, _>(bytes, &mut s, &Opts { crafted: false })) {
+                // segment 0 (PT_LOAD over [0, 0x700)) contains the file header itself: its bytes change
+                // legitimately with the mutated field, every other answer must not
+                Ok(true) => Some(s.recs.into_iter().filter(|r| r.key.q != Q_OPEN && !(r.key.q == Q_SEGDATA && r.key.a == 0)).collect()),
+                _ => None,
+            }
+        };
+        let base = match run(&sk.bytes) {
+            Some(b) => b,
+            None => {
+                out.violate("independence:baseline does not open", sk.name.clone());
+                return;
+            }
+        };
+        let mut dig = Fnv::new();
+        let n = IND_FIELDS[fi].1;
+        let vals: Vec<u64> = if n >= 256 { (a..(a + 256).min(n)).collect() } else { crate::lattice::v64().into_iter().take(40).collect() };
+        for v in vals {
+            let mut bytes = sk.bytes.clone();
+            put(&mut bytes, site.off, site.width, sk.enc.order, v);
+            out.transitions += base.len() as u64;
+            match run(&bytes) {
+                None => {
+                    out.violate(format!("independence:{} makes the file unreadable", IND_FIELDS[fi].0), format!("{} := {v:#x} on {}", IND_FIELDS[fi].0, sk.name));
+                    return;
+                }
+                Some(r) => {
+                    if r != base {
+                        let first = r.iter().zip(base.iter()).find(|(x, y)| x != y).map(|(x, _)| qname(x.key.q)).unwrap_or("record count");
+                        out.violate(format!("independence:results depend on {}", IND_FIELDS[fi].0), format!("{} := {v:#x} on {}: first differing call {}", IND_FIELDS[fi].0, sk.name, first));
+                        return;
+                    }
+                    dig.u64(v);
+                }
+            }
+        }
+        out.nontrivial(dig.get() ^ idx);
+    }
+}
+
 pub fn build(tier: Tier) -> CheckDef {
+    let tiny = crate::skeleton::tiny_skeletons();
+    let ind: Vec<crate::skeleton::Skeleton> = if tier == Tier::Quick { vec![tiny[4].clone(), tiny[3].clone()] } else { tiny.into_iter().step_by(2).collect() };
     CheckDef {
         prop: "C02",
         level: "model_checking",
@@ -465,7 +548,7 @@ pub fn build(tier: Tier) -> CheckDef {
             "NoteHeader is private and is covered through C14; vd_version/vn_version and the ident gate bytes stay valid (their rejection paths belong to C10)".into(),
             "2 simultaneous deviations suffice for defects involving <= 2 fields".into(),
         ],
-        spaces: vec![Box::new(Structs { pairs: true }), Box::new(Accessors { full_rinfo: tier == Tier::Thorough })],
+        spaces: vec![Box::new(Structs { pairs: true }), Box::new(Accessors { full_rinfo: tier == Tier::Thorough }), Box::new(Independence { sk: ind })],
         abort_is_violation: false,
         hang_is_violation: false,
         exhaustive: true,
